@@ -287,8 +287,10 @@ def client_host_for(bind_addr, want=None):
     return want or "::1"
 
 
-def connect(host, port, deadline):
+def connect(host, port, deadline, rcvbuf=None):
     s = socket.socket(_family(host), socket.SOCK_STREAM)
+    if rcvbuf:
+        s.setsockopt(socket.SOL_SOCKET, socket.SO_RCVBUF, int(rcvbuf))   # before connect: fixes the window
     s.settimeout(max(0.1, deadline - time.monotonic()))
     try:
         s.connect((host, port))
@@ -347,7 +349,8 @@ def do_request(host, port, req, deadline, hold=None, stuck_probe=None):
     """one client connection: send the request bytes (optionally in pieces / closing early), read
     everything the server sends until it closes. hold = (sent, release): after sending, signal `sent`
     and keep the connection open and silent until `release` is set (a client that stalls mid-request)."""
-    s = connect(host, port, deadline)
+    slow = req.get("slow_read")
+    s = connect(host, port, deadline, rcvbuf=(slow or {}).get("rcvbuf"))
     if s is None:
         if hold:
             hold[0].set()
@@ -396,7 +399,21 @@ def do_request(host, port, req, deadline, hold=None, stuck_probe=None):
             if ev:
                 stuck.append(ev)
             return bool(ev)
+        first = b""
+        if slow:
+            # a client that stops reading in the middle of a large body (small receive window) and goes on later:
+            # the server must simply wait for it
+            t_end = time.monotonic() + 10.0
+            while b"\r\n\r\n" not in first and time.monotonic() < t_end:
+                r_, _, _ = select.select([s], [], [], 0.2)
+                if r_:
+                    d_ = s.recv(4096)
+                    if not d_:
+                        break
+                    first += d_
+            time.sleep(float(slow.get("pause_s", 6)))
         raw, eof, reset = read_all(s, deadline, give_up=give_up if stuck_probe else None)
+        raw = first + raw
         out = {"refused": False, "raw": raw.hex(), "eof": eof, "reset": reset, "client": local, "server": peer,
                "send_error": send_error}
         if stuck and not eof and not reset:
@@ -449,6 +466,33 @@ def request_worker_stuck(baseline):
     if not both:
         return None
     return {"thread": both[0], "stack": b[both[0]]}
+
+
+def serving_thread_blocked(baseline):
+    """positive evidence that the server no longer accepts connections: its accepting thread sits, at two instants
+    one second apart, in the same place inside the handling of ONE accepted connection (process_request /
+    finish_request) instead of being back in its select loop. Returns a stack summary or None."""
+    def sample():
+        frames = sys._current_frames()
+        out = {}
+        for t in main_threads(baseline):
+            f = frames.get(t.ident)
+            names = []
+            while f is not None:
+                names.append(f.f_code.co_name)
+                f = f.f_back
+            if "serve_forever" in names and ("process_request" in names or "finish_request" in names):
+                out[t.name] = names[:12]
+        return out
+    a = sample()
+    if not a:
+        return None
+    time.sleep(1.0)
+    b = sample()
+    both = [k for k in a if k in b and a[k] == b[k]]
+    if not both:
+        return None
+    return {"thread": both[0], "stack": b[both[0]], "what": "accepting thread blocked"}
 
 
 def serving_thread_busy_with_a_request(baseline):
@@ -524,9 +568,16 @@ def run_exchange(case):
                 try:
                     host = client_host_for(bind, req.get("client"))
                     results[i] = do_request(host, port, req, deadline,
-                                            stuck_probe=lambda: request_worker_stuck(baseline))
+                                            stuck_probe=lambda: (request_worker_stuck(baseline)
+                                                                 or serving_thread_blocked(baseline)))
                 except InfraTimeout as e:
-                    errors.append(("timeout", str(e)))
+                    ev = serving_thread_blocked(baseline)
+                    if ev:
+                        # not the machine: the server's accepting thread is blocked, nobody will ever answer
+                        results[i] = {"no_response": True, "server_not_accepting": True, "refused": False, "raw": "",
+                                      "eof": False, "reset": False, "evidence": ev}
+                    else:
+                        errors.append(("timeout", str(e)))
                 except Exception as e:  # noqa
                     errors.append(("error", repr(e)))
 
@@ -614,11 +665,17 @@ def run_exchange(case):
                                "exc_logs": _state["collector"].take(), "stderr_tracebacks": n_tb,
                                "stderr_samples": tb_samples[:3]})
     finally:
-        try:
-            srv.stop()
-        finally:
+        # stop() of a server whose accepting thread is blocked never returns: do not let it take the worker along
+        t_stop = threading.Thread(target=lambda: (srv.stop(), None), name="vh-stop", daemon=True)
+        t_stop.start()
+        t_stop.join(20.0)
+        stop_hung = t_stop.is_alive()
+        if not stop_hung:
             hygiene_close(srv)
-    return {"port": port, "phases": phases_out}
+    out = {"port": port, "phases": phases_out}
+    if stop_hung:
+        out["stop_hung"] = True
+    return out
 
 
 # --------------------------------------------------------------------------- lifecycle cases
